@@ -419,3 +419,31 @@ def source_drift(pid):
     if not changed:
         return f'anchored source: all functions of {len(anchors)} anchor file(s) match the recorded fingerprints (harness/fingerprints.json)'
     return 'anchored source differs from the recorded fingerprints in: ' + ', '.join(changed[:12]) + (' ...' if len(changed) > 12 else '')
+
+
+def scribble(obj):
+    """overwrite a RESULT the library handed out, the way a caller may (a caller owns what it was given): lists and numpy arrays in place,
+    dicts and sets emptied; immutable results are left alone. Returns True if something was overwritten. A later answer of the library must
+    not show the scribbling."""
+    try:
+        import numpy as np
+        if isinstance(obj, np.ndarray):
+            if obj.flags.writeable and obj.size:
+                obj[...] = (np.arange(obj.size).reshape(obj.shape) + 100).astype(obj.dtype)
+                return True
+            return False
+    except Exception:  # noqa
+        pass
+    try:
+        if isinstance(obj, list):
+            if obj:
+                obj[:] = [100 + k for k in range(len(obj))]
+                return True
+            obj.append(12345)
+            return True
+        if isinstance(obj, (dict, set)):
+            obj.clear()
+            return True
+    except Exception:  # noqa
+        pass
+    return False
